@@ -78,7 +78,12 @@ def canonical_class(obj):
     if (mod.startswith("BTrees.") or mod == "sim.subcls") and \
             name.endswith("Py"):
         name = name[:-2]
-    return (mod, name)
+    # (a name object of its own per reference, for every class alike: static
+    # C types make a new str per `__name__` lookup, heap types -- every
+    # Python class, every user subclass -- hand out one shared object, and
+    # pickle memoises by identity; the records of two deployments must not
+    # differ by that)
+    return (mod, "".join([name[:1], name[1:]]))
 
 
 def resolve_class(modname, name, impl):
